@@ -550,6 +550,22 @@ int main(int argc, char **argv)
         rep().stat("cases_from_non_initial_object_state", (long long)extra.size());
     }
     {
+        // thread-count argument sweep: EVERY nThreads 1..17 (thorough: ..34) on sizes whose batch counts leave every kind of
+        // quotient / remainder against the team (the split of batches over threads must cover all of them)
+        int mode = which == "C03" ? M_NTT : which == "C04" ? M_INTT : M_EXT;
+        long long added = 0;
+        if (!args.num("light", 0))
+        for (u64 n : (th ? std::vector<u64>{16, 32, 64, 128, 256, 512, 1024, 4096} : std::vector<u64>{64, 256, 1024}))
+            for (u64 ph : {1ULL, 2ULL, 3ULL, 4ULL})
+                for (unsigned t = 1; t <= (th ? 34u : 17u); t++)
+                {
+                    if (mode == M_EXT) { if (!th && n > 256) continue; cases.push_back({M_EXT, n / 2, n / 2, n, 1, ph, 1, 0, 1, t, 0, 0, 0}); }
+                    else cases.push_back({mode, n, n, 0, 1, ph, 1, 0, 1, t, 0, 0, 0});
+                    added++;
+                }
+        rep().stat("cases_from_thread_count_sweep", added);
+    }
+    {
         // boundary words planted at a pipeline stage (run_case_planted)
         int mode = which == "C03" ? M_NTT : which == "C04" ? M_INTT : M_EXT;
         long long added = 0;
